@@ -18,7 +18,8 @@ vars == << l, viol >>
 
 AllQ(o, P(_)) == \A i \in 1..Len(o.qs) : P(o.qs[i])
 \* the caller canceled before the terminal state was decided (first false Next / Close call)
-Canceled(q) == q.canceled_before_decision
+\* (... or after Close had been called but while a held pipeline goroutine still kept Close from deciding anything)
+Canceled(q) == q.canceled_before_decision \/ q.cancel_while_close_held
 \* ran to its own end: neither canceled nor closed before Next returned false
 OwnEnd(q) == ~Canceled(q) /\ ~q.closed_early /\ ~q.cancel_during_close
 
